@@ -1,13 +1,13 @@
 // Package model holds the reference models the oracles compare against. They are
 // written from the property statements, not from the code under test.
-package model
+package mframing
 
 import "errors"
 
 var (
-	ErrTruncated = errors.New("model: truncated")
-	ErrOverflow  = errors.New("model: varint overflows 32 bits")
-	ErrShort     = errors.New("model: length prefix exceeds remaining bytes")
+	ErrTruncated = errors.New("mframing: truncated")
+	ErrOverflow  = errors.New("mframing: varint overflows 32 bits")
+	ErrShort     = errors.New("mframing: length prefix exceeds remaining bytes")
 )
 
 // Uvarint32 decodes an unsigned LEB128 number that must fit 32 bits.
